@@ -149,6 +149,8 @@ def module_texts(m):
         csrc.append("%s %s(%s) { %s }" % (f["ret"], f["name"], args, f["body"]))
         dargs = ", ".join(f.get("dargs", f["args"])) or "void"
         cdef.append("%s %s(%s);" % (f.get("dret", f["ret"]), f["name"], dargs))
+    if m.get("raw_c"):          # the C text itself is added by the build functions (not part of the
+        cdef.append(m["raw_cdef"])   # combined facts program, where it would be defined once per module)
     return "\n".join(csrc) + "\n", [("\n".join(cdef), False), ("\n".join(cdef_packed), True)], twins
 
 
@@ -336,7 +338,7 @@ def build_api(m, workdir, csrc, cdefs):
     for text, packed in cdefs:
         if text.strip():
             ffi.cdef(text, packed=packed)
-    ffi.set_source(m["name"], PRELUDE + csrc)
+    ffi.set_source(m["name"], PRELUDE + csrc + m.get("raw_c", ""))
     ffi.compile(tmpdir=workdir)
     sys.path.insert(0, workdir)
     try:
